@@ -158,6 +158,20 @@ impl Cfg {
             // then switched to the wanted level by one of the setters before any input: the result
             // must behave like a compressor created from the flags of that level
             let fmt = if self.zlib { DataFormat::Zlib } else { DataFormat::Raw };
+            if self.api == "setZ" || self.api == "setZR" {
+                // raw-deflate flags first, switched to the wanted format and level by exactly ONE setter call
+                let fmt = if self.zlib { DataFormat::Zlib } else { DataFormat::Raw };
+                let mut c = CompressorOxide::new(miniz_oxide::deflate::core::create_comp_flags_from_zip_params(
+                    if self.api == "setZ" { 6 } else { 1 }, -15, 0));
+                if self.api == "setZR" {
+                    let junk: Vec<u8> = (0..3000u32).map(|i| (i.wrapping_mul(2654435761) >> 9) as u8).collect();
+                    let mut out = vec![0u8; 20000];
+                    let _ = compress(&mut c, &junk, &mut out, TDEFLFlush::Finish);
+                    c.reset();
+                }
+                c.set_format_and_level(fmt, self.level);
+                return c;
+            }
             if self.api == "setI" || self.api == "newI" {
                 // DataFormat::ZLibIgnoreChecksum "behaves the same as Zlib for compression"
                 use miniz_oxide::deflate::CompressionLevel as L;
@@ -218,7 +232,7 @@ impl Cfg {
     pub fn json(&self, c: &CompressorOxide) -> Value {
         if self.api.starts_with("set") {
             return json!({"api": "flags", "level": self.level, "strategy": 0, "zlib": self.zlib, "wbits": 15, "flags": c.flags(),
-                          "reused": self.api == "setR", "made_by": self.api});
+                          "reused": self.api == "setR" || self.api == "setZR", "made_by": self.api});
         }
         json!({"api": if self.api == "params_reused" { "params" } else { self.api }, "level": self.level, "strategy": STRATS[self.strat].2, "zlib": self.zlib,
                "wbits": if self.api != "flags" { self.wbits } else { 15 }, "flags": c.flags(), "reused": self.api == "params_reused"})
